@@ -351,6 +351,10 @@ class SimNet:
         st = SimTransport(self, loop, sproto, "server", server=server,
                           extra={"peername": ("client", len(self.conns)), "sockname": addr, "socket": None})
         ct.peer, st.peer = st, ct
+        try:
+            ct.owner_task = asyncio.current_task()
+        except RuntimeError:
+            ct.owner_task = None
         ct.conn_id = st.conn_id = len(self.conns)
         self.conns.append((ct, st))
         self.stats["connections"] += 1
